@@ -49,8 +49,7 @@ Print Assumptions C04_item_printed_unchanged.
 Theorem C04_string_lexes_back :
   forall (pos : nat) (s : bytes) (rest : list N),
   exact_string s ->
-  next_token pos (s ++ rest)%list =
-  LTok {| t_kind := TString; t_val := s; t_pos := pos |} rest.
+  next_token pos (s ++ rest) = LTok {| t_kind := TString; t_val := s; t_pos := pos |} rest.
 Proof. exact LexerFacts.next_token_exact. Qed.
 Print Assumptions C04_string_lexes_back.
 
@@ -68,7 +67,7 @@ Theorem C04_list_lexes_back :
   forall (items : list bytes) (pos : nat) (rest : list N),
   items <> [] ->
   Forall exact_string items ->
-  next_n (2 * Datatypes.length items + 1) pos (print_items items ++ rest)%list =
+  next_n (2 * Datatypes.length items + 1) pos (print_items items ++ rest) =
   Some ((TLeftBracket, [91%N]) :: commas items ++ [(TRightBracket, [93%N])], rest).
 Proof. exact LexerFacts.printed_list_lexes_back. Qed.
 Print Assumptions C04_list_lexes_back.
@@ -78,8 +77,8 @@ Theorem C04_lex_render :
   forall (l : list ltok) (wend : bytes),
   lchain l wend ->
   all_space wend ->
-  snd (lex (lrender l ++ wend)%list) = None /\
-  map strip_pos (fst (lex (lrender l ++ wend)%list)) = ltoks l.
+  snd (lex (lrender l ++ wend)) = None /\
+  map strip_pos (fst (lex (lrender l ++ wend))) = ltoks l.
 Proof. exact RenderFacts.lex_lrender. Qed.
 Print Assumptions C04_lex_render.
 
